@@ -604,12 +604,23 @@ def gen_twin_instr_cases(seed, n):
         for r in IMPLICIT.get(fam, []):
             named.add(r)
         named.add("RSP")
+        # registers the instruction only WRITES (fully: 32-/64-bit destinations) are left random on purpose:
+        # they must come out equal on both machines because the instruction defines them
+        written = set()
+        if fam == "Cpuid":
+            written = {"RBX", "RDX"}
+        elif fam in ("Mov", "Movzx", "Movsxd", "Lea", "Pop") and c["named"][0] in instr_gen.REGIDX and instr_gen.REGIDX[c["named"][0]][1] in (32, 64):
+            d64 = parent64(c["named"][0])
+            others = set(parent64(r) for r in c["named"][1:] if parent64(r))
+            if d64 and d64 not in others and d64 != "RSP" and not (fam == "Mov" and "moffs" in code):
+                written = {d64}
+        explicit = named - written
         cid = "tw%d:%s" % (k, code)
         k += 1
         order = {g: i for i, g in enumerate(instr_gen.GPR64)}
         TWIN_EXPLICIT[cid] = named
         L = ["case " + cid, "new %s %x %x" % (c["code"].hex(), c["rip"], c["rip"])]
-        for g in sorted(named):
+        for g in sorted(explicit):
             L.append("regw 64 %s %x" % (g, c["regs"][order[g]]))
         L.append("allxmm " + " ".join("%x" % v for v in c["xmm"]))
         L.append("flags %x" % c["flags"])
@@ -640,8 +651,13 @@ def instr_twin_compare(cid, a, b):
     da, db = dumps(a), dumps(b)
     if len(da) != 2 or len(db) != 2:
         return None
+    ok_a = any(l.startswith("r ok") for l in a if l.startswith("r ") and not l.startswith("r ok 0x")) and \
+        [l for l in a if l.startswith("r ")][-1].startswith("r ok")
     for k, g in enumerate(instr_gen.GPR64):
         if g in named:
+            # a register the instruction defines is only comparable when the instruction completed
+            if da[0][3 + k] != db[0][3 + k] and not ok_a:
+                continue
             if da[1][3 + k] != db[1][3 + k]:
                 return "register %s differs between two machines given the same explicit inputs: %s vs %s" % (g, da[1][3 + k], db[1][3 + k])
         else:
